@@ -332,23 +332,31 @@ func (e *Engine) checkQuiescent(final bool) {
 			dropGets
 			keepGets
 		)
+		// a conservation law broken after a Clear of this run is also a cleared
+		// cache that does not behave as a fresh one (C15): a new cache obeys them
+		mv := func(rule, msg string, _ uint64) {
+			e.violate("C17", rule, msg, 0)
+			if atomic.LoadUint64(&e.lastClearInv) != 0 {
+				e.violate("C15", "after-clear-metrics-"+rule, "after the Clear invoked at #"+fmt.Sprint(atomic.LoadUint64(&e.lastClearInv))+" the metrics do not behave as those of a new cache: "+msg, 0)
+			}
+		}
 		mt := e.api.Metrics()
 		hits, misses := mt.Hits(), mt.Misses()
 		gets := uint64(atomic.LoadInt64(&e.getsDone))
 		if hits+misses != gets {
-			e.violate("C17", "hits-misses", fmt.Sprintf("quiescent: Hits+Misses=%d+%d, Get calls since creation/Clear=%d", hits, misses, gets), 0)
+			mv("hits-misses", fmt.Sprintf("quiescent: Hits+Misses=%d+%d, Get calls since creation/Clear=%d", hits, misses, gets), 0)
 		}
 		if ka, ke := mt.KeysAdded(), mt.KeysEvicted(); ka-ke != uint64(len(snap.KeyCosts)) {
-			e.violate("C17", "keys", fmt.Sprintf("quiescent: KeysAdded-KeysEvicted=%d-%d, resident keys=%d", ka, ke, len(snap.KeyCosts)), 0)
+			mv("keys", fmt.Sprintf("quiescent: KeysAdded-KeysEvicted=%d-%d, resident keys=%d", ka, ke, len(snap.KeyCosts)), 0)
 		}
 		if ca, ce := mt.CostAdded(), mt.CostEvicted(); ca-ce != uint64(max-rem) {
-			e.violate("C17", "cost", fmt.Sprintf("quiescent: CostAdded-CostEvicted=%d-%d=%d, MaxCost-RemainingCost=%d", ca, ce, ca-ce, max-rem), 0)
+			mv("cost", fmt.Sprintf("quiescent: CostAdded-CostEvicted=%d-%d=%d, MaxCost-RemainingCost=%d", ca, ce, ca-ce, max-rem), 0)
 		}
 		if sd := mt.SetsDropped(); sd != uint64(atomic.LoadInt64(&e.setsFalse)) {
-			e.violate("C17", "sets-dropped", fmt.Sprintf("quiescent: SetsDropped=%d, Sets refused with a full buffer=%d", sd, e.setsFalse), 0)
+			mv("sets-dropped", fmt.Sprintf("quiescent: SetsDropped=%d, Sets refused with a full buffer=%d", sd, e.setsFalse), 0)
 		}
 		if kd := mt.GetsKept() + mt.GetsDropped(); kd > uint64(atomic.LoadInt64(&e.getsStartedEver)) {
-			e.violate("C17", "gets-kept-dropped", fmt.Sprintf("quiescent: GetsKept+GetsDropped=%d exceeds Gets=%d", kd, e.getsStartedEver), 0)
+			mv("gets-kept-dropped", fmt.Sprintf("quiescent: GetsKept+GetsDropped=%d exceeds Gets=%d", kd, e.getsStartedEver), 0)
 		}
 		_ = m
 		probe(PrMetricsChecked)
